@@ -8,6 +8,7 @@ oracle:         after every call, on the implementation: ids pairwise distinct a
 import glob
 import json
 import os
+import random
 import tempfile
 
 import msm
@@ -166,9 +167,15 @@ def run_doc(dc):
             if declared and c not in ids:
                 # the id must still be reachable: it may have moved to the source variable
                 try:
-                    m.get_variable_by_cmeta_id(c)
+                    got = m.get_variable_by_cmeta_id(c)
+                    bad.append(('after loading, no variable carries id %r, but looking it up returns %s (cmeta_id %r)'
+                                % (c, got.name, got.cmeta_id), dc))
                 except KeyError:
                     bad.append(('after loading, id %r declared in the document belongs to no variable' % c, dc))
+        for c in ('ax', 'bx', 'cy', 'y_id', 'never_declared'):
+            if m.has_cmeta_id(c) != (c in ids):
+                bad.append(('after loading, has_cmeta_id(%r) is %r although %s' % (c, m.has_cmeta_id(c), 'variable %s carries it' % ids[c].name
+                                                                               if c in ids else 'no variable carries it'), dc))
         # every carrier is a variable that appears in the equations (the source end), when the connection had equal units
         return bad, 'loaded'
     finally:
@@ -177,6 +184,56 @@ def run_doc(dc):
             os.rmdir(d)
         except OSError:
             pass
+
+
+def run_foreign(seed):
+    """annotations whose subject is a resource of ANOTHER document (absolute or relative URI ending in '#<id>' with <id> a
+    cmeta id of this model): looking a variable up by such a resource, or by an annotation only that resource carries, never
+    returns the local variable (the library answers NotImplementedError: non-local annotations are not supported)"""
+    import rdflib
+    from cellmlmanip.model import Model
+    rng = random.Random(seed)
+    bad = []
+    m = Model('foreign%d' % seed)
+    names = ['V', 'time', 'x%d' % rng.randrange(9)]
+    vs = [m.add_variable(n, 'dimensionless', cmeta_id=(n if rng.random() < 0.8 else None)) for n in names]
+    NS = 'https://chaste.comp.ox.ac.uk/cellml/ns/oxford-metadata#'
+    PRED = ('http://biomodels.net/biology-qualifiers/', 'is')
+    local_terms = {}
+    for k, v in enumerate(vs):
+        if v.cmeta_id is not None and rng.random() < 0.6:
+            m.rdf.add((v.rdf_identity, rdflib.URIRef(PRED[0] + PRED[1]), rdflib.URIRef(NS + 'term_%d' % k)))
+            local_terms[k] = v
+    target = rng.choice(vs)
+    frag = target.cmeta_id if target.cmeta_id is not None else target.name
+    base = rng.choice(['http://models.example.org/other_model.cellml', 'other_model.cellml', 'urn:x-model:other', '../a/b.cellml'])
+    foreign = rdflib.URIRef(base + '#' + frag)
+    m.rdf.add((foreign, rdflib.URIRef(PRED[0] + PRED[1]), rdflib.URIRef(NS + 'foreign_term')))
+    info = {'seed': seed, 'foreign_subject': str(foreign), 'local_ids': [v.cmeta_id for v in vs]}
+    try:
+        got = m.get_variable_by_cmeta_id(foreign)
+        bad.append(('get_variable_by_cmeta_id(<%s>) returns the local variable %s (cmeta_id %r): the resource belongs to another '
+                    'document' % (foreign, got.name, got.cmeta_id), info))
+    except (NotImplementedError, KeyError):
+        pass
+    for name, fn in (('get_variables_by_rdf', lambda: m.get_variables_by_rdf(PRED, (NS, 'foreign_term'))),
+                     ('get_variable_by_ontology_term', lambda: [m.get_variable_by_ontology_term((NS, 'foreign_term'))])):
+        try:
+            got = fn()
+            if got:
+                bad.append(('%s for an annotation that only <%s> (a resource of another document) carries returns the local '
+                            'variable(s) %s, none of which carries it' % (name, foreign, [g.name for g in got]), info))
+        except (NotImplementedError, KeyError):
+            pass
+    # the local annotations are still found
+    for k, v in local_terms.items():
+        try:
+            got = m.get_variable_by_ontology_term((NS, 'term_%d' % k))
+            if got is not v:
+                bad.append(('get_variable_by_ontology_term(term_%d) returns %s, the annotation is on %s' % (k, got.name, v.name), info))
+        except Exception as e:
+            bad.append(('get_variable_by_ontology_term(term_%d) raises %r although %s carries it' % (k, e, v.name), info))
+    return bad
 
 
 def work(case):
@@ -212,6 +269,11 @@ def run(ctx):
         ctx.count(case_key=dc, kind='doc:' + outcome)
         for what, detail in bad:
             ctx.violation(what, {'doc': detail})
+    fseeds = [ctx.seed * 1000 + i for i in range(30 if ctx.tier == 'quick' else 400)]
+    for sd, bad in zip(fseeds, vlib.pmap(run_foreign, fseeds)):
+        ctx.count(case_key=('foreign', sd), kind='foreign-subject')
+        for what, detail in bad:
+            ctx.violation(what, {'foreign': detail})
     if ctx.tie_breaks and not ctx.violations:
         more = [msm.gen_case(ctx.seed * 100000 + 50000 + i, 'annot') for i in range(10 * n if ctx.tier == 'quick' else n)]
         for case, bad in zip(more, vlib.pmap(run_oracle, more)):
@@ -234,6 +296,9 @@ def replay(ctx, case):
         for who, what, detail in bad:
             ctx.violation(what, {'conversion_case': case['conversion_case'], 'detail': detail})
         return bad[0][1] if bad else None
+    if 'foreign' in case:
+        bad = run_foreign(case['foreign']['seed'])
+        return bad[0][0] if bad else None
     if 'doc' in case:
         bad, _ = run_doc(case['doc'])
         return bad[0][0] if bad else None
